@@ -64,6 +64,14 @@ type benv struct {
 	useViews   bool
 	views      map[string]view
 	kindOf     map[string]string // kinds of the variables declared in the function (and in inlined helpers)
+	// calls of functions outside the translated code, by the text of the called function: the Coq function that stands
+	// for it and which of the call's arguments it is applied to (udpfn.go)
+	externFn map[string]bexFn
+}
+
+type bexFn struct {
+	name string
+	args []int
 }
 
 func (e *benv) bad(n ast.Node, why string) string {
@@ -265,6 +273,11 @@ func (e *benv) expr(n ast.Expr) bex {
 		}
 		return bex{e.bad(n, "unknown identifier "+v.Name), false}
 	case *ast.SelectorExpr:
+		if e.externFn != nil {
+			if g, ok := e.vars[exprText(v)]; ok {
+				return bex{g, true}
+			}
+		}
 		if id, ok := v.X.(*ast.Ident); ok && e.recvName != "" && id.Name == e.recvName {
 			if g, ok := e.vars[e.recvName+"."+v.Sel.Name]; ok {
 				return bex{g, true}
@@ -565,6 +578,21 @@ func (e *benv) expr(n ast.Expr) bex {
 						}
 					}
 				}
+			}
+		}
+		if e.externFn != nil {
+			if f, ok := e.externFn[exprText(v.Fun)]; ok {
+				var ops []bex
+				for _, i := range f.args {
+					if i >= len(v.Args) {
+						return bex{e.bad(v, "too few arguments of an external call"), true}
+					}
+					ops = append(ops, e.expr(v.Args[i]))
+				}
+				if len(ops) == 0 {
+					return bex{f.name, true}
+				}
+				return e.combine(ops, func(s []string) string { return "(" + f.name + " " + strings.Join(s, " ") + ")" })
 			}
 		}
 		if e.extern != nil {
@@ -1137,34 +1165,50 @@ func (e *benv) block(stmts []ast.Stmt, ret func([]ast.Expr) string, cont func() 
 				}
 			}
 		}
-		if len(s.Lhs) == 2 && len(s.Rhs) == 1 && s.Tok == token.DEFINE {
-			// a, b := f(...) for a translated function returning a pair
-			a, okA := s.Lhs[0].(*ast.Ident)
-			b, okB := s.Lhs[1].(*ast.Ident)
-			if !okA || !okB {
-				return e.bad(s, "unsupported assignment")
+		if len(s.Lhs) >= 2 && len(s.Rhs) == 1 && (s.Tok == token.DEFINE && len(s.Lhs) == 2 || e.externFn != nil) {
+			// a, b := f(...) for a translated function returning a pair; with external functions also a, _, c = f(...)
+			var names []string
+			for _, l := range s.Lhs {
+				id, ok := l.(*ast.Ident)
+				if !ok {
+					return e.bad(s, "unsupported assignment")
+				}
+				names = append(names, id.Name)
 			}
 			rhs := e.expr(s.Rhs[0])
-			ga, gb := "v_"+a.Name, "v_"+b.Name
-			sa, ha := e.vars[a.Name]
-			sb, hb := e.vars[b.Name]
-			e.vars[a.Name], e.vars[b.Name] = ga, gb
+			type sv struct {
+				v   string
+				had bool
+			}
+			saved := map[string]sv{}
+			var pats []string
+			for _, n := range names {
+				if n == "_" {
+					pats = append(pats, "_")
+					continue
+				}
+				v, had := e.vars[n]
+				saved[n] = sv{v, had}
+				pats = append(pats, "v_"+n)
+			}
+			for _, n := range names {
+				if n != "_" {
+					e.vars[n] = "v_" + n
+				}
+			}
 			var out string
 			if rhs.pure {
-				out = "(let '(" + ga + ", " + gb + ") := " + rhs.t + " in " + rest() + ")"
+				out = "(let '(" + strings.Join(pats, ", ") + ") := " + rhs.t + " in " + rest() + ")"
 			} else {
 				t := e.tmp()
-				out = "(do " + t + " <- " + rhs.t + "; let '(" + ga + ", " + gb + ") := " + t + " in " + rest() + ")"
+				out = "(do " + t + " <- " + rhs.t + "; let '(" + strings.Join(pats, ", ") + ") := " + t + " in " + rest() + ")"
 			}
-			if ha {
-				e.vars[a.Name] = sa
-			} else {
-				delete(e.vars, a.Name)
-			}
-			if hb {
-				e.vars[b.Name] = sb
-			} else {
-				delete(e.vars, b.Name)
+			for n, v := range saved {
+				if v.had {
+					e.vars[n] = v.v
+				} else {
+					delete(e.vars, n)
+				}
 			}
 			return out
 		}
